@@ -15,7 +15,7 @@ COMMON_NOTE = ("Trusted: Lean 4.33 kernel; axioms propext, Classical.choice, Quo
 
 FP_TEXT = {
  'C01': 'In floating point: roundtrip_fp (the same identity for every model of floating-point arithmetic, all profiles, every 8-bit colour).',
- 'C02': 'In floating point: exact re-quantisation in every model through all twelve spaces that are not recorded findings (CIELAB, CIELUV, xyY, LCh(ab), LCh(uv), HCL, sRGB, Adobe RGB, Rec.709, Rec.2020, OkLab, OkLch), with round-trip bounds inside the property's 5e-4.',
+ 'C02': 'In floating point: exact re-quantisation in every model through all twelve spaces that are not recorded findings (CIELAB, CIELUV, xyY, LCh(ab), LCh(uv), HCL, sRGB, Adobe RGB, Rec.709, Rec.2020, OkLab, OkLch), with round-trip bounds inside the 5e-4 of the property.',
  'C03': 'In floating point: cmyk_roundtrip_fp (exact), yuv/ycbcr/hsl/hsv/hwb_roundtrip_fp with the same unit bounds as over the reals.',
  'C04': 'In floating point: Props/C04_fp.lean (NaN from rounding residues: every forward path, reverse function and round trip finite in every model) and Props/C04_fp_overflow*.lean (the same with overflow beyond 2^1023 modelled).',
  'C05': 'In floating point: forward_fp (XYZ within 1e-12 of the real model, 3e-7 of the specification), white/black.',
